@@ -151,8 +151,8 @@ def ctr_backends(ctx, prog, an):
             first = False
     out = []
     for (st, unit, g, fs) in vtable_instances(prog):
-        if fs is None or len(fs) < 5:
-            continue        # stub, or a parallel-ECB table
+        if fs is None:
+            continue        # stub
         b = Backend()
         b.table, b.unit, b.struct = g["name"], unit, st
         for idx, fn in enumerate(fs):
@@ -164,8 +164,8 @@ def ctr_backends(ctx, prog, an):
             b.kinds[name] = c["kind"]
             objp = [pn for pn, sp in c["params"].items() if sp[0] == "OBJ"][0]
             b.handle_idx[name] = [k for k, p in enumerate(decl["params"]) if p["name"] == objp][0]
-        if not b.roles:
-            continue
+        if not b.roles or not any("_ctr_" in n for n in b.roles):
+            continue        # not a table the public CTR functions dispatch through (e.g. a parallel-ECB table)
         any_name = sorted(b.roles)[0]
         b.family = family(any_name)
         b.block = block_size(any_name)
